@@ -143,7 +143,10 @@ pub fn scenario(prop: &str) -> Scenario {
 }
 
 pub fn gen_case(prop: &str, r: &mut SplitMix64) -> FwCase {
-    let mut sc = scenario(prop);
+    // C05 is "the actions are those the stated semantics prescribes" for every feature: half of its cases
+    // come from the mixed profile, half from the directed scenario classes of the other framework properties
+    let sprop = if prop == "C05" && r.chance(1, 2) { *r.pick(&["C01", "C02", "C03", "C04", "C07", "C08", "C09", "C09"]) } else { prop };
+    let mut sc = scenario(sprop);
     let script = match r.below(6) {
         0 => vec![0; 8],
         1 => vec![u64::MAX; 8],
